@@ -30,6 +30,10 @@ def NT_C15(r): return len(set(_re.findall(r"NEW h\d+ (i\d+)", r["impl"]))) >= 2
 def NT_C16(r): return "RAW:" in r["arg"] or "SENDFAIL" in r["impl"]
 def NT_C18(r): return " ; S" in r["arg"] or "stop0=1" in r["arg"] or "| S " in r["arg"]
 
+LANG_NOTE = ("Coq kernel; no axioms; hand-written character-level model of the nom parsers (src/lang/ast.rs, prog.rs), of Scope/compile_expr/compile_prog (datapath.rs), "
+             "lang::compile (mod.rs) and the image encoder (serialize.rs); tied to the code by compiling the same byte strings with portus::lang and with the extracted model and comparing "
+             "image bytes and the scope's answer (class, index, volatility, type and initial value) for every name occurring in the text.")
+
 NOT_CLAIMED = {}
 
 PROPS = {
@@ -268,5 +272,34 @@ PROPS = {
         "nontrivial": lambda r: (r["verdict"] == "ok" or r["verdict"].startswith("FAIL")) and " I0" in r["impl"],
         "assumptions": ["libccp walks instructions with a u8 index: programs are assumed to have at most 255 instructions (fits_datapath)",
                         "set_cwnd/set_rate_abs take u32: settings are compared modulo 2^32"],
+    },
+    "C03": {
+        "coq": "Properties/C03.v",
+        "level_text": "PARTIAL. Proved on the instruction-level model: C03_image_length (16 bytes per event then 16 per instruction), C03_preamble_then_tiling (DEF preamble from the scope, then the "
+                      "event table tiles the instructions contiguously in source order with exact indices/counts), C03_condition_block_writes_flag (non-empty, last instruction writes the event flag), "
+                      "C03_registers_within_files (8 tmp, 6 local, 16 report, 16 control, 6 implicit; encodable immediates), C03_opcodes_defined. The full byte-level statement "
+                      "(C03_full_statement: image_wf, an independent decoder, incl. temporaries read only after being written) is evaluated on every image portus produces in the streams, "
+                      "and every image of the dp stream is loaded by the real libccp.",
+        "level_note": LANG_NOTE,
+        "streams": ["limits"],
+        "rule": "programs at and one beyond each register limit (15/16/17 report and control variables, 5/6/7 locals, 1..11 operator nodes in three shapes in statement and condition position), "
+                "three declaration styles, plus generated programs; image_wf evaluated on every accepted image; non-trivial = accepted image (predicate applied); distinct by source",
+        "nontrivial": lambda r: r["impl"].startswith("OK"),
+        "assumptions": ["the number of events is taken from Bin.events.len(), as the install message's count field is"],
+    },
+    "C20": {
+        "coq": "Properties/C20.v",
+        "level_text": "PARTIAL. Proved on the character-level parser model: whitespace runs before any form, after any expression and after an opening parenthesis are irrelevant; all 26 operator "
+                      "spellings are recognised as their operator whatever follows; a comment before an event and a comment among the statements of an event change neither instructions nor scope "
+                      "(C20_comment_statement_is_skipped). The quantification over ALL layouts of ALL well-typed programs is covered by the layout stream: 8 (thorough 40) random layouts per generated "
+                      "program (whitespace runs of space/tab/CR/LF, comments at every permitted position, both operator spellings) must give a byte-identical image and identical name->register map; "
+                      "the unchanged source is compiled twice as well. Acceptance of the documented grammar is covered by C10/C03 streams (accepted fraction reported).",
+        "level_note": LANG_NOTE,
+        "streams": ["c20"],
+        "rule": "500 generated well-typed programs (thorough 6000) x (1 recompilation + 8/40 layout variants): whitespace runs of length 0..6 over {space, tab, CR, LF} between all tokens "
+                "(non-empty only where two tokens would fuse), comments before events and among statements, symbolic/word operator spellings swapped at random; "
+                "non-trivial = variant of an accepted program; distinct by variant text",
+        "nontrivial": lambda r: r["impl"].startswith("OK"),
+        "assumptions": ["names do not begin with true/false (the atom parser takes those as a literal followed by junk): such programs are rejected in every layout"],
     },
 }
